@@ -93,52 +93,105 @@ def reg1_2(ctx: Ctx) -> None:
         raise AnalysisError(f"REG-2: found {n_key} keyed accesses, {n_store} stores, {n_proj} projections (6/3/4 confirmed by hand)")
 
 
+def _reg3_strip(ctx: Ctx, mod: Mod, fn: ast.AST) -> None:
+    """the wrapper-stripping part of get_code as a step function, decided for every combination of the tests it makes:
+    a partial / a bound, class or static method / an object with __wrapped__ is replaced by what it wraps AND looked at again;
+    only when none applies does the stripping end, with the object unchanged (so towers in any order are peeled)"""
+    from ..stepper import Stepper, enumerate_table
+    from ..emit import Unsupported
+    from ..util import resolve_expr
+    var = fn.args.args[0].arg
+    loops = [s for s in fn.body if isinstance(s, ast.While)]
+    helper = None
+    if not loops:
+        # thing = helper(thing) with a (recursive) helper of the package
+        for s in fn.body:
+            if isinstance(s, ast.Assign) and norm(s.targets[0]) == var and isinstance(s.value, ast.Call) and len(s.value.args) == 1 and norm(s.value.args[0]) == var:
+                cal = ctx.P.resolve_call(mod, s.value)
+                if cal.kind == "pkg":
+                    hq = cal.name.split(".")[-1]
+                    if mod.has(hq):
+                        helper = mod.fn(hq)
+        if helper is None:
+            raise AnalysisError("REG-3: neither an unwrapping loop nor a call of an unwrapping helper found in get_code")
+    if len(loops) > 1:
+        raise AnalysisError("REG-3: several while loops in get_code")
+    v = var if helper is None else helper.args.args[0].arg
+    P, M, C, S, W = (f"isinstance({v}, functools.partial)", f"isinstance({v}, types.MethodType)", f"isinstance({v}, classmethod)",
+                     f"isinstance({v}, staticmethod)", f"hasattr({v}, '__wrapped__')")
+    known = [P, M, C, S, W]
+
+    def run(assign):
+        st = Stepper(assign, resolve=lambda e: resolve_expr(mod, e))
+        env: Dict[str, ast.AST] = {}
+        if helper is None:
+            loop = loops[0]
+            if not st.truth(loop.test):
+                return ("EXIT", v)
+            k, val = st.run(loop.body, env)
+            cur = norm(env[v]) if v in env else v
+            if k in ("continue", "fall"):
+                return ("LOOP", cur)
+            if k == "break":
+                return ("EXIT", cur)
+            if k == "return":
+                return ("EXIT", norm(val) if val is not None else "None")
+            return ("RAISE", "")
+        k, val = st.run([x for x in helper.body if not (isinstance(x, ast.Expr) and isinstance(x.value, ast.Constant))], env)
+        if k == "return" and val is not None:
+            if isinstance(val, ast.Call) and isinstance(val.func, ast.Name) and val.func.id == helper.name and len(val.args) == 1:
+                return ("LOOP", norm(val.args[0]))
+            return ("EXIT", norm(val))
+        if k == "fall":
+            return ("EXIT", "None")
+        return ("RAISE", "")
+
+    try:
+        atoms, rows = enumerate_table(run, known)
+    except Unsupported as ex:
+        ctx.R.undecided("REG-3", f"wrapper stripping of get_code is outside the step interpreter: {ex}")
+        return
+    groups: Dict[tuple, list] = {}
+    for assign, out in rows:
+        allowed = set()
+        if assign[P]:
+            allowed.add(f"{v}.func")
+        if assign[M] or assign[C] or assign[S]:
+            allowed.add(f"{v}.__func__")
+        if assign[W]:
+            allowed |= {f"inspect.unwrap({v})", f"inspect.unwrap(cast(types.FunctionType, {v}))", f"{v}.__wrapped__"}
+        good = (out[0] == "LOOP" and out[1] in allowed) if allowed else (out == ("EXIT", v))
+        groups.setdefault(tuple(assign[k] for k in known), []).append((assign, out, allowed, good))
+    bad = None
+    partial_bad = None
+    for key, lst in groups.items():
+        wrong = [r for r in lst if not r[3]]
+        if wrong and len(wrong) == len(lst):
+            bad = bad or wrong[0]
+        elif wrong:
+            partial_bad = partial_bad or wrong[0]
+    where = loops[0] if helper is None else helper
+    if bad is not None:
+        assign, out, allowed, _ = bad
+        shown = ", ".join(k for k in known if assign[k]) or "none of the wrapper tests holds"
+        if allowed and out[0] == "EXIT":
+            why = f"stripping ends there with `{out[1]}` instead of looking at the result again: a tower with that layer on top of another wrapper is not peeled to the function, and registrations bind to (or fail on) the inner wrapper"
+        elif allowed:
+            why = f"the object is replaced by `{out[1]}`, which is not what that wrapper wraps ({sorted(allowed)})"
+        else:
+            why = f"the stripping must end with the object unchanged; it {'continues with' if out[0] == 'LOOP' else 'ends with'} `{out[1]}`"
+        ctx.R.fail("REG-3", mod, where, f"get_code wrapper stripping, case [{shown}]: {why}", construct=f"get_code stripping case {shown}")
+    elif partial_bad is not None:
+        ctx.R.undecided("REG-3", f"wrapper stripping differs from the reference only for some values of conditions the rule does not know: {partial_bad[0]}")
+    else:
+        ctx.R.ok("REG-3", f"get_code strips partial / bound, class, static method / __wrapped__ layers to a fixpoint in any order ({len(rows)} combinations of {len(atoms)} tests)")
+
+
 def reg3(ctx: Ctx) -> None:
     mod = ctx.P.mod("_code_dispatch")
     fn = mod.fn("get_code")
     ctx.R.saw(mod, "get_code")
-    loops = [s for s in fn.body if isinstance(s, ast.While)]
-    if len(loops) != 1 or not (isinstance(loops[0].test, ast.Constant) and loops[0].test.value is True):
-        raise AnalysisError("REG-3: the unwrapping `while True` loop of get_code vanished")
-    loop = loops[0]
-    var = fn.args.args[0].arg
-    kinds = {"functools.partial": False, "types.MethodType": False, "classmethod": False, "staticmethod": False, "__wrapped__": False}
-    attr_for = {"functools.partial": "func", "types.MethodType": "__func__", "classmethod": "__func__", "staticmethod": "__func__"}
-    for s in loop.body[:-1]:
-        if not isinstance(s, ast.If):
-            ctx.R.fail("REG-3", mod, s, "unexpected statement in the unwrapping loop")
-            continue
-        t = s.test
-        names: List[str] = []
-        if isinstance(t, ast.Call) and norm(t.func) == "isinstance" and norm(t.args[0]) == var:
-            tl = t.args[1]
-            names = [norm(e) for e in tl.elts] if isinstance(tl, ast.Tuple) else [norm(tl)]
-        elif isinstance(t, ast.Call) and norm(t.func) == "hasattr" and norm(t.args[0]) == var and isinstance(t.args[1], ast.Constant):
-            names = [t.args[1].value]
-        rebinds = [x for x in s.body if isinstance(x, ast.Assign) and norm(x.targets[0]) == var]
-        cont = isinstance(s.body[-1], ast.Continue)
-        for nm in names:
-            if nm not in kinds:
-                continue
-            good = len(rebinds) == 1 and cont
-            if good and nm in attr_for:
-                good = norm(rebinds[0].value) == f"{var}.{attr_for[nm]}"
-            if good and nm == "__wrapped__":
-                good = "inspect.unwrap(" in norm(rebinds[0].value) or norm(rebinds[0].value) == f"{var}.__wrapped__"
-            if good:
-                kinds[nm] = True
-                ctx.R.ok("REG-3", f"get_code: {nm} -> {norm(rebinds[0])}; continue")
-            else:
-                ctx.R.fail("REG-3", mod, s, f"the {nm} case must rebind `{var}` to the wrapped callable and `continue` (so towers of wrappers are unwrapped to a fixpoint)",
-                           construct=f"get_code case {nm}")
-                kinds[nm] = True
-    for nm, seen in kinds.items():
-        if not seen:
-            ctx.R.fail("REG-3", mod, loop, f"get_code has no case for {nm}: registrations through such wrappers bind to the wrapper, not to the code that runs", construct=f"get_code case {nm}")
-    if isinstance(loop.body[-1], ast.Break) and not any(isinstance(n, (ast.Break, ast.Return)) for s in loop.body[:-1] for n in ast.walk(s)):
-        ctx.R.ok("REG-3", "the loop is left only through the final break (no case applies)")
-    else:
-        ctx.R.fail("REG-3", mod, loop, "the unwrapping loop must end only when no case applies (single final break)", construct="loop exit")
+    _reg3_strip(ctx, mod, fn)
     # function / code object
     txt = norm(fn)
     if "isinstance(thing, types.FunctionType)" in txt and "code = thing.__code__" in txt and "isinstance(thing, types.CodeType)" in txt:
